@@ -189,7 +189,9 @@ func (m *ModelServer) AcknowledgePublication(_ context.Context, request *traits.
 		}),
 	)
 
-	if err == alreadyAcknowledged && request.AllowAcknowledged {
+	// acknowledgedPub is only set when the check above failed with alreadyAcknowledged; the error itself cannot be
+	// compared by identity because Collection.Update re-wraps status errors
+	if err != nil && acknowledgedPub != nil && request.AllowAcknowledged {
 		return acknowledgedPub, nil
 	}
 
